@@ -191,17 +191,47 @@ fn one_case(run: &Run, case: u64) {
     }
 }
 
+/// Scale: one tree of 10 040 files backed up with one entry per index hunk (hunks in two
+/// index subdirectories), restored and compared.
+fn many_hunks(run: &Run) {
+    let mut w = crate::history::many_hunks_world("c01big", run.seed);
+    let o = crate::history::MANY_HUNKS_OPTS;
+    run.eval();
+    let r = w.backup(o);
+    let b = r.backup.as_ref().unwrap();
+    let replay = json!({"many_hunks": true});
+    if !b.clean() {
+        run.violation("backup-reported-errors", format!("[10 040-file tree, 1 entry per hunk] {}", b.describe()), replay);
+        return;
+    }
+    match restore_and_compare(&w.arch, Some(0), &w.snap, &w.sc, &CmpOpts::default()) {
+        Ok(()) => {
+            run.count("restores_compared", 1);
+            run.count("restores_of_versions_with_more_than_10000_hunks", 1);
+            run.count("entries_compared", w.snap.len() as u64);
+        }
+        Err(m) => run.violation(m.class, format!("[10 040-file tree, 1 entry per hunk] {}", m.detail), replay),
+    }
+}
+
 pub fn run(tier: Tier, replay: Option<Value>) -> i32 {
-    let run = Run::new("C01", "exploration", tier, replay);
+    let run = Run::new("C01", "exploration", tier, replay.clone());
     let n = tier.pick(3000, 200000);
-    run.par_cases(n, super::threads(), |case| one_case(&run, case));
+    if replay.as_ref().and_then(|r| r.get("many_hunks")).is_some() {
+        super::alongside(&run, "the many-hunks case", || many_hunks(&run), || ());
+        return run.finish("replay", &[], None, &[]);
+    } else if replay.is_some() {
+        run.par_cases(n, super::threads(), |case| one_case(&run, case));
+    } else {
+        super::alongside(&run, "the many-hunks case", || many_hunks(&run), || run.par_cases(n, super::threads(), |case| one_case(&run, case)));
+    }
     run.finish(
-        "seeded generated trees (depth<=4; names with leading dots, bytes below/above '/', multi-byte; file sizes at 0/1/cap±1/block±1/2·block/3·block+7; duplicate and prefix contents; modes cycling through 0..0o7777; mtimes from {-2^31..2^33}s x {0,1,5e8,999999999,random}ns on files, dirs and symlinks; dangling/absolute/.. symlinks; named owners; every 40th case additionally a wide and deep tree: 150-500 files and 40 subdirectories in one directory, names of 250 bytes, a chain of 30 nested directories) x option sets drawn from all 216 combinations; every fifth case runs on a 4-worker multi-thread runtime instead of the current-thread one; backup must be Ok with no error reported, restore into an empty directory must be Ok with no error and the lstat/readlink/read snapshot of the result must equal that of the source (bytes, kind, target, mtime ns incl. directories and root, mode&0o7777, uid/gid as root). Non-trivial = has a multi-block file, a combined block of >=2 files, a special mode bit, a pre-epoch or sub-second mtime, or a non-ASCII name; distinct by (tree signature, options).",
+        "one tree of 10 040 files with one entry per index hunk (two index subdirectories), then seeded generated trees (depth<=4; names with leading dots, bytes below/above '/', multi-byte; file sizes at 0/1/cap±1/block±1/2·block/3·block+7; duplicate and prefix contents; modes cycling through 0..0o7777; mtimes from {-2^31..2^33}s x {0,1,5e8,999999999,random}ns on files, dirs and symlinks; dangling/absolute/.. symlinks; named owners; every 40th case additionally a wide and deep tree: 150-500 files and 40 subdirectories in one directory, names of 250 bytes, a chain of 30 nested directories) x option sets drawn from all 216 combinations; every fifth case runs on a 4-worker multi-thread runtime instead of the current-thread one; backup must be Ok with no error reported, restore into an empty directory must be Ok with no error and the lstat/readlink/read snapshot of the result must equal that of the source (bytes, kind, target, mtime ns incl. directories and root, mode&0o7777, uid/gid as root). Non-trivial = has a multi-block file, a combined block of >=2 files, a special mode bit, a pre-epoch or sub-second mtime, or a non-ASCII name; distinct by (tree signature, options).",
         &[
             "expected values are the snapshot of what the file system actually holds (tmpfs /dev/shm)",
             "release profile, debug assertions off",
         ],
         None,
-        &[("restores_compared", 20), ("class_multi_block_file", 3), ("class_combined_block_2plus_files", 3), ("class_special_mode_bits", 3)],
+        &[("restores_compared", 20), ("class_multi_block_file", 3), ("class_combined_block_2plus_files", 3), ("class_special_mode_bits", 3), ("restores_of_versions_with_more_than_10000_hunks", 1)],
     )
 }
